@@ -60,13 +60,27 @@ Definition is_digits (l : text) : bool :=
   | _ => forallb (fun c => (48 <=? c) && (c <=? 57)) l
   end.
 
-(* the separator DotLookup.String writes before the lookup: " ." when a numeric lookup directly follows another
-   numeric lookup (foo.1 .2 — printed without the space the two would be read back as one decimal), else "." *)
-Definition dot_sep (c : expr) (l : text) : text :=
-  match c with
-  | EDot _ l' => if is_digits l' && is_digits l then [32; 46] else [46]
-  | _ => [46]
+(* endsInNumericLookup (tree.go): the printed text ends in a '.' followed by one or more digits (a numeric dot lookup,
+   the fraction of a number literal, or a reference that was renamed to a path ending in a number) *)
+Definition digit_rune (c : N) : bool := (48 <=? c) && (c <=? 57).
+
+Fixpoint strip_digits (r : text) : text :=
+  match r with
+  | c :: r' => if digit_rune c then strip_digits r' else r
+  | [] => []
   end.
+
+Definition ends_numeric (s : text) : bool :=
+  match rev s with
+  | c :: r' => digit_rune c && match strip_digits r' with d :: _ => d =? 46 | [] => false end
+  | [] => false
+  end.
+
+(* the separator DotLookup.String writes before the lookup: " ." when a numeric lookup directly follows text that
+   ends in a numeric lookup (foo.1 .2 — printed without the space the two would be read back as one decimal), else "."
+   (pc = the printed container) *)
+Definition dot_sep (pc : text) (l : text) : text :=
+  if is_digits l && ends_numeric pc then [32; 46] else [46].
 
 Section Printer.
 Variable lower : N -> N.
@@ -75,7 +89,7 @@ Variable printable : N -> bool.
 Fixpoint print (e : expr) : text :=
   match e with
   | ECtxRef n => map lower n                                         (* strings.ToLower(x.Name) *)
-  | EDot c l => print c ++ dot_sep c l ++ l                          (* "%s.%s", or "%s .%s" between numeric lookups *)
+  | EDot c l => print c ++ dot_sep (print c) l ++ l                  (* "%s.%s", or "%s .%s" after a numeric lookup *)
   | EIndex c l => print c ++ [91] ++ print l ++ [93]                 (* "%s[%s]" *)
   | ECall f ps => print f ++ [40] ++ join_comma (map print ps) ++ [41]   (* "%s(%s)", params joined by ", " *)
   | EAnon args b => [40] ++ join_comma args ++ [41; 32; 61; 62; 32] ++ print b   (* "(%s) => %s" *)
